@@ -117,6 +117,11 @@ def plain_fns(prog, method, needle):
     return [k for k in find_fns(prog, method, inpath='conjure_object::plain::<impl at') if needle in prog.fns[k].header]
 
 
+def battery():
+    r = replay([{'op': 'plain_roundtrip'}])[0]
+    return [] if r.get('ok') else list(r.get('failed') or ['plain_roundtrip failed'])
+
+
 def run(rep, tier):
     prog = program(['conjure_object'])
     rep.bounds['values'] = 'all f64 (z3 floating point) for the special-casing; all valid-UTF-8 strings <= 9 bytes for FromPlain of f64; one symbolic value per delegating impl'
@@ -149,7 +154,7 @@ def run_f64(rep, prog):
     for s2, rv in it.run(fmt[0], [st.ref(v), st.ref(Agg('std::fmt::Formatter', ()))], st):
         rep.states += 1
         if is_abnormal(rv):
-            rep.violation('C12:f64:fmt', f'Plain::fmt for f64: {rv!r}', {})
+            rep.structural('C12:f64:fmt', f'Plain::fmt for f64: {rv!r}', {}, battery)
             continue
         ev = s2.aux.get('fmt', ())
         pinf, ninf = z3.And(z3.fpIsInf(v), z3.fpIsPositive(v)), z3.And(z3.fpIsInf(v), z3.fpIsNegative(v))
@@ -173,7 +178,7 @@ def run_f64(rep, prog):
     for s2, rv in it.run(fp[0], [ptr], st):
         rep.states += 1
         if is_abnormal(rv):
-            rep.violation('C12:f64:from_plain', f'FromPlain for f64: {rv!r}', {})
+            rep.structural('C12:f64:from_plain', f'FromPlain for f64: {rv!r}', {}, battery)
             continue
         is_ok = it.variant_of(rv, 'Ok')
         okp = it.payload(rv, 'Ok')
@@ -189,7 +194,14 @@ def run_f64(rep, prog):
                 conds.append(z3.And(is_ok, z3.Not(z3.Or(inf, ninf)), z3.Not(bstr_eq(seen, s))))
         m = dec.decide('f64:from_plain:spellings', s2, z3.Or(*conds), bytes=9)
         if m is not None:
-            rep.violation('C12:f64:from_plain', f'from_plain::<f64>({model_bytes(m, s)!r}) does not give the class the spelling names', {'text': model_bytes(m, s).hex()})
+            txt = model_bytes(m, s)
+            op = {'op': 'plain_f64_text', 'hex': txt.hex()}
+            r, r2 = replay([op])[0], replay([op], 'release')[0]
+            rep.replayed += 1
+            if not r.get('ok') and r == r2:
+                rep.violation('C12:f64:from_plain', f'from_plain::<f64>({txt!r}) does not give the value the statement prescribes: native {r}', {'op': op, 'native': r})
+            else:
+                rep.inconc(f'model mismatch C12 from_plain::<f64>({txt!r}): native {r}')
     finish_engine(rep, it)
 
 
@@ -247,7 +259,7 @@ def run_delegation(rep, prog):
             rep.states += 1
             n += 1
             if is_abnormal(rv):
-                rep.violation('C12:plain:fmt', f'Plain::fmt for {a0}: {rv!r}', {})
+                rep.structural('C12:plain:fmt', f'Plain::fmt for {a0}: {rv!r}', {}, battery)
                 continue
             ev = s2.aux.get('fmt', ())
             good = len(ev) == 1
@@ -273,11 +285,11 @@ def run_delegation(rep, prog):
                     good = False
             rep.query(f'plain:fmt:{a0}:delegates-the-value-unchanged', 'unsat' if good else 'sat', 0.0, events=[e[0] for e in ev])
             if not good:
-                rep.violation('C12:plain:fmt', f'Plain::fmt for {a0} writes {[(e[0], repr(e[1])[:80]) for e in ev]}', {})
+                rep.structural('C12:plain:fmt', f'Plain::fmt for {a0} writes {[(e[0], repr(e[1])[:80]) for e in ev]}', {}, battery)
                 continue
             m = dec.decide(f'plain:fmt:{a0}:same-value', s2, z3.Not(same))
             if m is not None:
-                rep.violation('C12:plain:fmt', f'Plain::fmt for {a0} formats a different value than it was given', {})
+                rep.structural('C12:plain:fmt', f'Plain::fmt for {a0} formats a different value than it was given', {}, battery)
     # Bytes <- Base64 STANDARD, DateTime <- RFC 3339
     for needle, key, want in (('Result<bytes::Bytes', 'decode', 'STANDARD'), ('Result<chrono::DateTime', 'chrono_parse', 'rfc3339')):
         fp = plain_fns(prog, 'from_plain', needle)
@@ -288,17 +300,17 @@ def run_delegation(rep, prog):
         for s2, rv in it.run(fp[0], [ptr], st):
             rep.states += 1
             if is_abnormal(rv):
-                rep.violation('C12:from_plain', f'from_plain {needle}: {rv!r}', {})
+                rep.structural('C12:from_plain', f'from_plain {needle}: {rv!r}', {}, battery)
                 continue
             rec = s2.aux.get(key)
             good = rec is not None and ((rec[0].fields[0] == want) if key == 'decode' else rec[0] == want)
             rep.query(f'from_plain:{needle}:uses-{want}', 'unsat' if good else 'sat', 0.0)
             if not good:
-                rep.violation('C12:from_plain', f'from_plain {needle} does not parse with {want}: {rec!r:.100}', {})
+                rep.structural('C12:from_plain', f'from_plain {needle} does not parse with {want}: {rec!r:.100}', {}, battery)
                 continue
             m = dec.decide(f'from_plain:{needle}:parses-the-whole-text', s2, z3.Not(bstr_eq(rec[1], s)))
             if m is not None:
-                rep.violation('C12:from_plain', f'from_plain {needle} hands a different text to the parser', {})
+                rep.structural('C12:from_plain', f'from_plain {needle} hands a different text to the parser', {}, battery)
     finish_engine(rep, it)
     if n < 8:
         rep.inconc(f'vacuity: only {n} Plain impls executed')
@@ -322,7 +334,7 @@ def run_generated(rep):
         ok = uses_plain and uses_from_plain
         rep.query(f'generated-alias:{alias}:Plain-and-FromPlain-delegate-to-{inner}', 'unsat' if ok else 'sat', 0.0)
         if not ok:
-            rep.violation('C12:generated-alias', f'generated alias {alias}: Plain delegates={uses_plain}, FromPlain delegates={uses_from_plain} (must forward to the aliased type\'s PLAIN impls, not Display/FromStr)', {})
+            rep.structural('C12:generated-alias', f'generated alias {alias}: Plain delegates={uses_plain}, FromPlain delegates={uses_from_plain} (must forward to the aliased type\'s PLAIN impls, not Display/FromStr)', {}, battery)
     finish_engine(rep, it)
 
 
